@@ -42,6 +42,9 @@ def run(tier):
     for i in range(200 if quick else 5000 * common.TS):
         plist.append({"name": "objover/%d" % i, "steps": [("snip", feat_cls.object_override_program(ro.fork(str(i))))], "mods": []})
 
+    rc = ck.rng.fork("ctorpaths")
+    for i in range(200 if quick else 5000 * common.TS):
+        plist.append({"name": "ctorpaths/%d" % i, "steps": [("snip", feat_cls.ctor_paths_program(rc.fork(str(i))))], "mods": []})
     rn = ck.rng.fork("nestedrecv")
     for i in range(150 if quick else 4000 * common.TS):
         plist.append({"name": "nestedrecv/%d" % i, "steps": [("snip", feat_cls.nested_receiver_program(rn.fork(str(i))))], "mods": []})
